@@ -1085,3 +1085,59 @@ func first(a, _ []byte) []byte { return a }
 //@   requires WF1in_$KIND(t)
 //@   ensures[pure] frame()
 //@   ensures[none_iff_empty] result2 == (old(t.root.pointer) != nil)
+
+// Sequence constructors. They run nothing of the iteration: the contract covers the work done
+// before the closure is returned (key transformation, copies, lowestCommonParent, the captures
+// clauses of the returned closure) and that this work leaves tree and arguments untouched.
+//@ func all
+//@   inline
+//@ func backward
+//@   inline
+//@ func filter
+//@   inline
+//@ func rangeScan
+//@   inline
+
+//@ func (*{alpha,unsigned,signed,float,compound,collation}SortedTree[K,V]).All
+//@   opt kind $KIND
+//@   requires t != nil
+//@   ensures[pure] frame()
+
+//@ func (*{alpha,unsigned,signed,float,compound,collation}SortedTree[K,V]).Backward
+//@   opt kind $KIND
+//@   requires t != nil
+//@   ensures[pure] frame()
+
+//@ func (*alphaSortedTree[K,V]).Prefix
+//@   opt bind K=[]byte
+//@   opt kind alpha
+//@   opt casts on
+//@   opt extent on
+//@   requires WF1in_alpha(t)
+//@   ensures[pure] frame()
+//@   ensures[arg_bytes_unchanged] sameBytes(p, 0, blen(p.obj))
+
+//@ func (*alphaSortedTree[K,V]).Range
+//@   opt bind K=[]byte
+//@   opt kind alpha
+//@   opt casts on
+//@   opt extent on
+//@   requires WF1in_alpha(t)
+//@   ensures[pure] frame()
+//@   ensures[arg_bytes_unchanged] sameBytes(start, 0, blen(start.obj)) && sameBytes(end, 0, blen(end.obj))
+
+//@ func (*collationSortedTree[K,V]).Prefix
+//@   opt bind K=string
+//@   opt kind collation
+//@   opt casts on
+//@   opt extent on
+//@   requires WF1in_collation(t)
+//@   ensures[pure] frame()
+
+//@ func (*collationSortedTree[K,V]).Range
+//@   opt bind K=string
+//@   opt kind collation
+//@   opt casts on
+//@   opt extent on
+//@   requires WF1in_collation(t)
+//@   ensures[pure] frame()
